@@ -6,10 +6,12 @@ required modules are overlays that are searched BEFORE the module's own macros, 
 For S a macro is a definition like any other (the driver merges `macs` into `defs` and the macro provides into
 `provs` and runs the S of `Model.lean`).
 
-`MacFix`: the three points in which the code deviates from S, switchable (the defaults are the code as it is).
+`MacFix`: the points in which the code deviates / deviated from S, switchable; the defaults are the code as it is,
+read from the source by the translator.
 Imports nothing outside core.
 -/
 import SteelVerif.C14.Model
+import SteelVerif.C14.GenTables
 namespace SteelVerif.C14
 
 /-- The macro part of a module: `(define-syntax m …)`, `(provide m)` of a macro, `(provide (for-syntax m))`. -/
@@ -20,10 +22,15 @@ structure MacMod where
   views : List Name := []      -- macro names the module's probe uses
 deriving Repr, Inhabited
 
+/-- Variants of the mechanism.  The defaults are the code as it is, READ FROM THE SOURCE by
+`translate/c14_tables.py`: `modifiers` = `find_in_scope_macros` keeps only the macros an identifier list names and
+prefixes the `for-syntax` provides too (commit 0fe3fa8e, finding K14e), `rollback` = the macro environment is
+restored when a program fails to compile / build (commit 3bef0920, finding K14f).  `ownFirst` is what S asks where
+the code still deviates (open finding K14g); `compose` goes with `Fix.compose` (K14c). -/
 structure MacFix where
-  compose : Bool := false      -- (with `modifiers`) the modifiers are composed, as in `Fix.compose` (K14c repaired)
-  modifiers : Bool := false    -- K14e repaired: `only-in` hides what it does not list, `prefix-in` prefixes every macro
-  rollback : Bool := false     -- K14f repaired: a request that fails to compile / build leaves no macro behind
+  compose : Bool := false
+  modifiers : Bool := Gen.macroModifiersApplied
+  rollback : Bool := Gen.macroEnvRolledBack
   ownFirst : Bool := false     -- K14g repaired: inside a module its own macro wins over an imported one
 deriving Repr, Inhabited, DecidableEq
 
@@ -53,33 +60,41 @@ def providedMacros (ownFirst : Bool) (g : Graph) (mg : MacGraph) (t : Nat) : Lis
   ((d.fsProv ++ d.plainProv).filter fun n => (effMacs ownFirst g mg t).contains n).foldl
     (fun acc n => minsert acc n ⟨.mod t, n, false⟩) []
 
-/-- `find_in_scope_macros`: the macros the flat require `r` brings into scope. -/
+/-- `find_in_scope_macros`: the macros the flat require `r` brings into scope.  Start from all provided macros;
+with an identifier list, re-insert every listed one under alias / prefix (recording the names inserted: `listed`)
+and — since 0fe3fa8e — keep only those; without one, prefix the macros provided as plain identifiers and — since
+0fe3fa8e — the ones provided through `for-syntax`. -/
 def macScopeM (fix : MacFix) (g : Graph) (mg : MacGraph) (r : Req) : List (Name × Val) :=
   let d := mg.mod r.target
   let macs := effMacs fix.ownFirst g mg r.target
   let init := providedMacros fix.ownFirst g mg r.target
-  if fix.modifiers then
-    -- what the modifiers ask for: filter + rename + prefix, like for values
-    init.filterMap fun e => (r.rename e.1).map fun v => (v, e.2)
-  else if !r.idents.isEmpty then
-    r.idents.foldl (fun acc ia =>
+  if !r.idents.isEmpty then
+    let res := r.idents.foldl (fun (st : List (Name × Val) × List Name) ia =>
+      let acc := st.1
       match ia.2 with
       | none =>
-        if !(acc.map (·.1)).contains ia.1 then acc
+        if !(acc.map (·.1)).contains ia.1 then st
         else if macs.contains ia.1 then
-          if r.pfx ≠ [] then mremove (minsert acc (r.pfx ++ ia.1) ⟨.mod r.target, ia.1, false⟩) ia.1
-          else minsert acc ia.1 ⟨.mod r.target, ia.1, false⟩
-        else acc
+          if r.pfx ≠ [] then
+            (minsert (mremove acc ia.1) (r.pfx ++ ia.1) ⟨.mod r.target, ia.1, false⟩, (r.pfx ++ ia.1) :: st.2)
+          else (minsert acc ia.1 ⟨.mod r.target, ia.1, false⟩, ia.1 :: st.2)
+        else st
       | some to =>
         if macs.contains ia.1 then
-          if !(acc.map (·.1)).contains ia.1 then acc
-          else minsert (mremove acc ia.1) (r.pfx ++ to) ⟨.mod r.target, ia.1, false⟩
-        else acc) init
+          if !(acc.map (·.1)).contains ia.1 then st
+          else (minsert (mremove acc ia.1) (r.pfx ++ to) ⟨.mod r.target, ia.1, false⟩, (r.pfx ++ to) :: st.2)
+        else st) (init, [])
+    if fix.modifiers then res.1.filter fun e => res.2.contains e.1 else res.1
   else
-    -- only the macros provided as PLAIN identifiers are visited here
-    (d.plainProv.filter fun n => macs.contains n).foldl (fun acc n =>
+    let plain := (d.plainProv.filter fun n => macs.contains n).foldl (fun acc n =>
       if r.pfx ≠ [] then mremove (minsert acc (r.pfx ++ n) ⟨.mod r.target, n, false⟩) n
       else minsert acc n ⟨.mod r.target, n, false⟩) init
+    if fix.modifiers && !r.pfx.isEmpty then
+      d.fsProv.foldl (fun acc n =>
+        match acc.lookup n with
+        | some v => minsert (mremove acc n) (r.pfx ++ n) v
+        | none => acc) plain
+    else plain
 
 /-- The macro names a spec makes available when the modifiers are composed. -/
 def macNamesS (mg : MacGraph) : Spec → List Name
@@ -95,7 +110,7 @@ def Spec.part (mg : MacGraph) (mac : Bool) : Spec → Spec
 
 /-- The macros a require spec brings into scope: the code as it is, or (both repairs) what S asks. -/
 def macScope (fix : MacFix) (g : Graph) (mg : MacGraph) (s : Spec) : List (Name × Val) :=
-  if fix.modifiers && fix.compose then
+  if fix.compose then
     ((s.part mg true).importsS (providedMacros fix.ownFirst g mg)).getD []
   else macScopeM fix g mg s.flatten
 
